@@ -200,10 +200,10 @@ def sc_validate_traces(chk, exe, traces, work, tag):
 
 
 # ------------------------------------------------------------------ C14
-def scl_cfg(path, sync, initial, timeout, steps, tmax, mode, dump=False, preset=None):
+def scl_cfg(path, sync, initial, timeout, steps, tmax, mode, dump=False, preset=None, extra_ref=()):
     s = ["SPECIFICATION Spec", "CONSTANTS Sync = %d" % sync, " Initial = %d" % initial, " Timeout = %d" % timeout,
          " Steps = {%s}" % ",".join(map(str, steps)), " TMax = %d" % tmax, ' Mode = "%s"' % mode,
-         " Preset <- PresetNone" if preset is None else " Preset = %d" % preset, "CONSTRAINT Bound",
+         " Preset <- PresetNone" if preset is None else " Preset = %d" % preset, " ExtraRef = {%s}" % ",".join(map(str, extra_ref)), "CONSTRAINT Bound",
          "INVARIANT ValidApplied", "INVARIANT BoundedResponse", "INVARIANT NoReferenceOnlyKeepsTime",
          "PROPERTY BackupLaw", "PROPERTY BackupValue", "PROPERTY NoCorrupt", "PROPERTY Separation", "PROPERTY BackoffLaw", "PROPERTY RequestCount",
          "CHECK_DEADLOCK FALSE"]
